@@ -106,7 +106,8 @@ def loc(body, bb):
 
 
 def where_call(body, bb):
-    return "%s:%s" % (body.file, body.blocks[bb]["term"].get("line"))
+    blk = body.blocks[bb]
+    return "%s:%s" % (blk.get("file") or body.file, blk["term"].get("line"))
 
 
 def is_error_exit(body, bb):
